@@ -214,6 +214,7 @@ V_C03_CleanEnding ==
 (* of nodes that ran and their final states are those of the reference        *)
 (* interpretation (Ref.tla), whatever the schedule; and the order is right.   *)
 Pure(pid) == Live(pid) /\ procs[pid].pure /\ PlainModel(Models[procs[pid].mi])
+PureL(pid) == Live(pid) /\ procs[pid].pure /\ PlainModelL(Models[procs[pid].mi])
 
 V_C04_Outcome ==
   IF ~Quiescent THEN {}
@@ -241,7 +242,7 @@ V_C04_Order ==
                                                            /\ IsDone(TS(pid, sib[i]).st)
                              \/ /\ ND(pid, x).needs = {} /\ ND(pid, x).else
                                 /\ \E i \in DOMAIN sib : TS(pid, sib[i]).st # "skipped" } }
-          : pid \in { q \in Pids : Pure(q) } }
+          : pid \in { q \in Pids : PureL(q) } }
 
 -----------------------------------------------------------------------------
 (* C05 *)
